@@ -80,10 +80,24 @@ def _generate_hot(rng):
     h, s = svcs[0]
     tc = round(tb + rng.choice([0.0, 0.02, 0.05, 0.1, 0.15, 0.25, 0.4, 1.0]) + 0.05 * rng.random(), 6)
     kind = rng.choice(["unregister", "unregister", "unregister", "unregister", "update", "close"])
+    no_trigger = False
     if kind == "unregister":
         ops.append({"t": tc, "op": "unregister", "h": h, "name": s["name"]})
-        if rng.random() < 0.25:
+        k2 = rng.random()
+        if k2 < 0.2:
             ops.append({"t": round(tc + rng.choice([0.5, 1.0, 3.0]), 6), "op": "register", "h": h, "svc": dict(s, port=s["port"] + 7)})
+        elif k2 < 0.35:
+            # ... and at once registered again without probing (cooperating_responders: the documented way to skip it),
+            # with another address set: the goodbyes of the old registration and the announcements of the new one are
+            # on the wire together
+            s3 = dict(s, port=s["port"] + 7)
+            s3["addrs"] = s["addrs"][:1] if len(s["addrs"]) > 1 else [f"10.77.1.{rng.randrange(1, 250)}"]
+            ops.append({"t": round(tc + rng.choice([0.0, 0.000001, 0.001, 0.1, 0.2]), 6), "op": "register", "h": h, "svc": s3,
+                        "cooperating": True})
+            # (a browser that starts afterwards looks the service up from its add_service)
+            ops.append({"t": round(tc + rng.choice([2.0, 3.0, 6.0]), 6), "op": "browse", "h": bh, "id": "b2", "types": list(types),
+                        "lookup_on_add": 3000})
+            no_trigger = True
     elif kind == "update":
         s2 = dict(s, port=s["port"] + 1, props={"ver": "2"})
         if rng.random() < 0.5:
@@ -91,7 +105,7 @@ def _generate_hot(rng):
         ops.append({"t": tc, "op": "update", "h": h, "svc": s2, "mutate": rng.random() < 0.4})
     else:
         ops.append({"t": tc, "op": "close", "h": h})
-    if rng.random() < 0.75:
+    if not no_trigger and rng.random() < 0.75:
         # ... issued a few milliseconds after the owner's first unicast reply (its answer to the new browser's QU query)
         # left, at the latest at the time drawn above
         for o in ops:
